@@ -9,7 +9,12 @@
     pennylane.data objects and temporary HDF5 files under .work/C64 with concrete values for the tokens, and after
     every call everything readable is read back (through the live handles, and from disk by Dataset.open(p, "copy")).
     code -> spec: the recorded traces are validated step by step by spec/trace/Trace_DatasetStore.tla, which applies
-    the same call to the model and compares; it names the first unexplained step and the failing clauses."""
+    the same call to the model and compares; it names the first unexplained step and the failing clauses.
+(L) list attributes of a live dataset read and edited in place: spec/sys/DatasetListEdit.tla (the python list the attribute
+    stands for; Get / GetAll / Insert / Append / Del / SetItem / Save / Reopen, reads are calls of the history) is model-checked
+    (pointwise statements of the documented list operations as action properties); spec/gen/DatasetListEditGen.tla emits every
+    history of reads and edits with what every call must return; harness/dslist.py executes them on a real list attribute
+    (in memory and file-bound) and compares every call, the final live list, its storage and a written copy."""
 from __future__ import annotations
 
 import json
@@ -18,7 +23,7 @@ import os
 import random
 import time
 
-from .. import dsreplay, lib
+from .. import dslist, dsreplay, lib
 from .. import dsvalues as V
 from ..lib import CheckResult, Violation
 
@@ -330,6 +335,149 @@ def comparator_controls():
     return n
 
 
+
+# --------------------------------------------------------------------------------------------- list attributes edited in place
+def list_cfgs(tier):
+    """(Cfgs of the generator, MaxLen, cap on the replayed histories with the largest number of free calls)"""
+    def cf(starts, m):
+        return [f'[start |-> {k}, loc |-> "{loc}", m |-> {m}]' for k in starts for loc in ("mem", "file")]
+    if tier == "quick":
+        return "{" + ", ".join(cf((3,), 2) + cf((2,), 3)) + "}", 5, 3, 150
+    return "{" + ", ".join(cf((0, 1, 2, 3, 4), 3) + cf((0, 2, 3), 4)) + "}", 6, 4, 20000
+
+
+def list_mc_run(tier, workers):
+    wd = lib.workdir(PID, "listmc")
+    steps = 4 if tier == "quick" else 5
+    cfgs = "{" + ", ".join(f'[start |-> {k}, loc |-> "{loc}", m |-> {steps}]' for k in (0, 1, 2, 3) for loc in ("mem", "file")) + "}"
+    r = lib.run_tlc_mc("DatasetListEdit", {"Cfgs": cfgs}, wd, constants={"MaxLen": 5, "MaxSteps": steps},
+                       invariants=["TypeOK", "Distinct"], properties=["ListProps"], workers=workers, timeout=1500)
+    if r.invariant_violated or not r.ok():
+        lib.require_ok(r, "DatasetListEdit (model checking)")
+    return r, {"module": "DatasetListEdit", "MaxSteps": steps, "MaxLen": 5, "states": r.distinct, "invariants": ["TypeOK", "Distinct"],
+               "action_properties": ["InsertProp", "DelProp", "SetProp", "ReadOnly", "GetProp", "ErrProp"]}
+
+
+def list_gen_run(tier, workers):
+    wd = lib.workdir(PID, "listgen")
+    cfgs, maxlen, mmax, cap = list_cfgs(tier)
+    r = lib.run_tlc_mc("DatasetListEditGen", {"Cfgs": cfgs}, wd, constants={"MaxLen": maxlen, "MaxSteps": 99},
+                       init="GInit", next_="GNext", constraints=["Emit"], invariants=["TypeOK", "Distinct"], workers=workers, timeout=1500)
+    lib.require_ok(r, "DatasetListEditGen")
+    seen, out = set(), []
+    for j in r.json_lines:
+        k = json.dumps(j, sort_keys=True)
+        if k not in seen:
+            seen.add(k)
+            out.append(j)
+    r.out, r.json_lines = "", []
+    out.sort(key=lambda j: json.dumps(j, sort_keys=True))
+    return r, out, mmax, cap
+
+
+def list_plan(ntok, rng, containers):
+    plan = []
+    for _ in range(ntok):
+        u = rng.random()
+        if u < 0.75:
+            plan.append({"k": rng.choice(V.CHEAP), "ch": []})
+        elif u < 0.90:
+            plan.append({"k": rng.choice(("sparse", "op", "ham", "pytree")), "ch": []})
+        else:
+            plan.append(containers[rng.randrange(len(containers))])
+    return plan
+
+
+def read_edit_read(hist):
+    """the history reads elements, then shifts elements (insert / delete not at the end), and reads again afterwards (the final read counts)"""
+    read = False
+    for e in hist:
+        if e["act"] in ("Get", "GetAll") and not e["err"]:
+            read = True
+        elif read and e["act"] in ("Insert", "Del") and not e["err"]:
+            before = e["len"] - 1 if e["act"] == "Insert" else e["len"] + 1
+            pos = e["i"] if e["i"] >= 0 else max(0, before + e["i"])
+            if pos < before - (0 if e["act"] == "Insert" else 1):
+                return True
+    return False
+
+
+def list_phase(lgen, tier, seed, rng, containers, nproc):
+    """replay of the generated list histories -> (violations, coverage dict, states, transitions)"""
+    r, hists, mmax, cap = lgen
+    total = len(hists)
+    keep = [j for j in hists if j["free"] < mmax]
+    rest = [j for j in hists if j["free"] >= mmax]
+    exhaustive = len(rest) <= cap
+    if not exhaustive:
+        rest = rng.sample(rest, cap)
+    jobs = []
+    for k, j in enumerate(keep + rest):
+        ntok = j["start"] + sum(1 for e in j["hist"] if e["v"] > 0)
+        jobs.append({"id": k, "start": j["start"], "loc": j["loc"], "hist": j["hist"], "final": j["final"],
+                     "plan": list_plan(ntok, rng, containers), "seed": seed * 1000003 + 500000 + k})
+    results = dslist.execute(jobs, str(lib.workdir(PID, "listfiles")), nproc)
+    if len(results) != len(jobs):
+        raise lib.MachineryError("list replay lost jobs")
+    bad, acts, n_rer, calls, elems = {}, {}, 0, 0, 0
+    oks = []
+    for job in jobs:
+        res = results[job["id"]]
+        v = dslist.compare(job, res["steps"], res["final"])
+        for e in job["hist"]:
+            acts[e["act"]] = acts.get(e["act"], 0) + 1
+        calls += len(job["hist"]) + 3
+        elems += sum(len(o["ret"]) for o in res["steps"]) + sum(len(x) for x in res["final"].values())
+        if read_edit_read(job["hist"]):
+            n_rer += 1
+        if v is None:
+            oks.append(job)
+        else:
+            bad.setdefault(f"list:{v[1]}:{v[2]}", []).append((job, v))
+    # negative controls: a corrupted expectation must be rejected by the comparator
+    neg = 0
+    cand = [j for j in oks if len(j["final"]) >= 2]
+    for job in rng.sample(cand, min(40, len(cand))):
+        c = json.loads(json.dumps(job))
+        res = results[job["id"]]
+        if neg % 2 == 0:
+            c["final"][0], c["final"][1] = c["final"][1], c["final"][0]
+        else:
+            tgt = [e for e in c["hist"] if e["ret"]]
+            if tgt:
+                tgt[0]["ret"][0] += 1
+            else:
+                c["final"] = c["final"][:-1]
+        if dslist.compare(c, res["steps"], res["final"]) is None:
+            raise lib.MachineryError("list negative control accepted: corrupted expectation not rejected")
+        neg += 1
+    if oks and neg < 10:
+        raise lib.MachineryError(f"too few list negative controls: {neg}")
+    need = ["Get", "GetAll", "Insert", "Append", "Del", "SetItem", "Save", "Reopen"]
+    if [a for a in need if not acts.get(a)] or not n_rer:
+        raise lib.MachineryError(f"vacuous list replay: calls {acts}, read-shift-read histories {n_rer}")
+    viol = []
+    for key, lst in sorted(bad.items()):
+        lst.sort(key=lambda t: (len(t[0]["hist"]), t[0]["id"]))
+        for job, v in lst[:3]:
+            res = results[job["id"]]
+            viol.append(Violation(key=key, detail=f"step {v[0]} [{v[2]}] of list history {dslist.short(job, v[0])}; expected "
+                                                  f"{job['hist'][v[0] - 1] if v[0] <= len(job['hist']) else {'final': job['final']}}; observed "
+                                                  f"{res['steps'][v[0] - 1] if v[0] <= len(job['hist']) else res['final']}; values "
+                                                  f"{[x['leaves'] or x['term'] for x in res['values']]}; notes {res['notes']} "
+                                                  f"({len(lst)} histories fail with this key)",
+                                  replay={"kind": "list", "job": job}))
+    sample = None
+    for job in oks:
+        if read_edit_read(job["hist"]) and len(job["hist"]) >= 3:
+            sample = {"family": "list", "history": dslist.short(job), "final": job["final"], "verdict": "ok"}
+            break
+    cov = {"histories_enumerated": total, "replayed": len(jobs), "exhaustive": exhaustive, "calls_compared": calls, "elements_read_back": elems,
+           "calls": acts, "read_then_shift_then_read_histories": n_rer, "negative_controls_rejected": neg,
+           "histories_not_explained": sum(len(x) for x in bad.values()), "sample": sample, "tlc_states": r.distinct}
+    return viol, cov, len(oks), n_rer
+
+
 # --------------------------------------------------------------------------------------------- the check
 KEY_OF = {"src-closed": "read:closes-source-dataset"}
 
@@ -438,17 +586,21 @@ def run(tier, seed):
     # ---- phase 1: all TLC generator / model-checking runs, concurrently
     from concurrent.futures import ThreadPoolExecutor
     per = max(2, W // 4)
-    with ThreadPoolExecutor(max_workers=len(fams) + 2) as tp:
+    with ThreadPoolExecutor(max_workers=len(fams) + 4) as tp:
         f_mc = tp.submit(mc_run, tier, per)
         f_val = tp.submit(value_run, tier, 2)
         f_gen = {name: tp.submit(gen_run, name, c, sim, seed, per) for name, c, sim in fams}
+        f_lmc = tp.submit(list_mc_run, tier, 2)
+        f_lgen = tp.submit(list_gen_run, tier, 2)
         mc_res, mc_info = f_mc.result()
         val_res, terms = f_val.result()
         gens = {name: f.result() for name, f in f_gen.items()}
+        lmc_res, lmc_info = f_lmc.result()
+        lgen = f_lgen.result()
     t_gen = time.time() - t00
     containers = [t for t in terms if t["ch"] or t["k"] in ("list", "tuple", "dict")]
-    tlc_states = mc_res.distinct + val_res.distinct
-    tlc_trans = mc_res.generated + val_res.generated
+    tlc_states = mc_res.distinct + val_res.distinct + lmc_res.distinct + lgen[0].distinct
+    tlc_trans = mc_res.generated + val_res.generated + lmc_res.generated + lgen[0].generated
 
     # ---- phase 2: jobs
     scale = float(os.environ.get("VERIF_C64_SCALE", "1"))            # development only: shrink the sampled families
@@ -522,9 +674,11 @@ def run(tier, seed):
 
     t1 = time.time()
     results = execute(groups, nproc)
-    t_exec = time.time() - t1
     if len(results) != len(jobs):
         raise lib.MachineryError("replay lost jobs")
+    list_viol, list_cov, list_ok, list_rer = list_phase(lgen, tier, seed, rng, containers, nproc)
+    list_cov["model"] = dict(lmc_info, violated=lmc_res.invariant_violated)
+    t_exec = time.time() - t1
 
     # ---- phase 3: trace validation (one TLC run per (slots, paths) shape), with corrupted copies as negative controls
     by_shape = {}
@@ -580,7 +734,7 @@ def run(tier, seed):
     # ---- verdicts -> violations; evidence
     stats = {"acts": {}, "modes": {}, "exceptions": {}, "steps": 0, "conflict_overwrite": 0, "conflict_keep": 0, "nested_observed": 0,
              "values_read_back": 0, "values_read_from_disk": 0}
-    viol, drift, fidelity, nontriv, samples = [], 0, {}, set(), []
+    viol, drift, fidelity, nontriv, samples = list(list_viol), 0, {}, set(), []
     bad_by_key = {}
     leaf_seen = set()
     for job in jobs:
@@ -638,11 +792,12 @@ def run(tier, seed):
         raise lib.MachineryError(f"vacuous: actions never explained {miss}, modes {mmiss}, stats {stats}")
     want_leaves = {f"{k}/{nm}" for k, pool in V.pools().items() for nm, _ in pool}
     cov = {"states": tlc_states, "transitions": tlc_trans,
-           "traces_validated_against_impl": len(jobs), "evaluations": stats["steps"],
-           "distinct_nontrivial": len(nontriv),
+           "traces_validated_against_impl": len(jobs) + list_cov["replayed"], "evaluations": stats["steps"] + list_cov["calls_compared"],
+           "distinct_nontrivial": len(nontriv) + list_rer, "list_attributes_edited_in_place": list_cov,
            "rule": "distinct (history, value terms) in which a value was read back, equal to what was assigned, from a place other than the "
-                   "dataset object it was assigned to (a file on disk, a handle on that file, a copy, the destination of write/read)",
-           "samples": samples, "exhaustive": exhaustive,
+                   "dataset object it was assigned to (a file on disk, a handle on that file, a copy, the destination of write/read); plus list histories "
+                   "in which elements were read, then shifted by an insert / delete not at the end, then read again",
+           "samples": samples + ([list_cov["sample"]] if list_cov["sample"] else []), "exhaustive": exhaustive and list_cov["exhaustive"],
            "model": dict(mc_info, violated=mc_res.invariant_violated),
            "families": fam_info, "calls_explained": stats["acts"], "modes": stats["modes"], "expected_failures_seen": stats["exceptions"],
            "values_read_back": stats["values_read_back"], "values_read_from_disk": stats["values_read_from_disk"],
@@ -663,7 +818,9 @@ def run(tier, seed):
         "equality per type: numbers/strings by ==, None by identity, containers by kind and elementwise, arrays by shape and values, sparse "
         "by shape and values, operators/Hamiltonians by class, wires, parameters, sub-operators and (<= 3 wires) matrix, molecules by their "
         "constructor fields, measurement processes and tapes structurally; dtype / sparse class / requires_grad differences are counted, not judged",
-        "values are instances from a finite pool per class (harness/dsvalues.py); containers to depth 2, width 2"])
+        "values are instances from a finite pool per class (harness/dsvalues.py); containers to depth 2, width 2",
+        "list attributes edited in place: one list attribute, length <= 5-6, indices 0..len and -1, <= 3-4 reads/edits after the assignment; "
+        "dict attributes edited in place are not exercised"])
 
 
 def probe_reassign():
@@ -679,6 +836,15 @@ def probe_reassign():
 
 def replay(path, tier, seed):
     rep = json.loads(open(path).read())["replay"]
+    if rep.get("kind") == "list":
+        job = rep["job"]
+        res = dslist.execute([job], str(lib.workdir(PID, "listfiles")), 1)[job["id"]]
+        v = dslist.compare(job, res["steps"], res["final"])
+        viol = [] if v is None else [Violation(key=f"list:{v[1]}:{v[2]}", detail=f"step {v[0]} [{v[2]}] of {dslist.short(job)}; observed "
+                                                                               f"{res['steps']} final {res['final']}; notes {res['notes']}", replay=rep)]
+        return CheckResult(coverage={"states": 0, "transitions": 0, "traces_validated_against_impl": 1, "evaluations": len(job["hist"]),
+                                     "distinct_nontrivial": 1, "rule": "replay of one stored list history", "samples": [dslist.short(job)],
+                                     "exhaustive": False}, violations=viol)
     job = {"id": 0, "hist": rep["hist"], "plan": rep["plan"], "seed": rep["seed"], "obs_from": 0}
     for e in job["hist"]:
         e.setdefault("err", "")
